@@ -227,7 +227,9 @@ CHECKS["C03"] = dict(
          "all graphs, silent sets and interleavings of three operations; the two pinned-tree deviations must fail. Real put / get / "
          "store_local / put_with_targets / raw remote PUT histories (values 0..600 bytes) on real clusters are judged by "
          "Trace_Store.tla against the ground truth read from every node's store after every operation: PutHolds, PutTargets, "
-         "NoSelfRpc, GetSound, GetComplete, HolderAnswers, SizeLimit, StoreIntegrity.",
+         "NoSelfRpc, GetSound, GetComplete, HolderAnswers, SizeLimit, StoreIntegrity. The composition root SaorsaCore.tla (connections, tables, "
+         "lookup guarantee, concurrent puts, pending table, stop) is model-checked for the cross-module clauses (VisibleThroughThirdParty, "
+         "NoResidueAfterStop, QuietAfterStop).",
     note="Trusted: hub frame log, value tokens, get_local as ground truth. The embedded lookup is assumed to satisfy C01. Lying "
          "harness endpoints may acknowledge without storing; only real nodes are judged.",
     technique="TLA+ spec + TLC exhaustive; put/get histories of real clusters validated by a TLA+ trace acceptor with ground-truth store reads",
@@ -264,7 +266,8 @@ CHECKS["C20"] = dict(
          "operation ends, within a bound proportional to the request timeout, stop returns within (peers+1) timeouts, no request "
          "after stop returned, no task left alive.",
     note="Trusted: virtual time of a current-thread tokio runtime, hub frame log, tokio task metrics. Real-time multi-threaded "
-         "schedules are not explored (the tokio RwLock / semaphore interleavings are explored only as far as the seeded yields reach).",
+         "schedules are sampled, not enumerated: 8 (thorough 150) runs on a 4-thread runtime, every other one a lock-stress run "
+         "(eight tasks reading the node's local knowledge in a tight loop while eight newcomers connect, disconnect and reconnect).",
     technique="TLA+ spec + TLC exhaustive (safety + liveness); seeded concurrent runs of real clusters validated by a TLA+ trace acceptor",
     design="6/C20")
 
@@ -311,7 +314,12 @@ def main():
         ],
         "checks": checks,
         "not_applicable": na,
-        "notes": "Exit codes: 0 held / KNOWN-FINDING only, 1 VIOLATION, 2 tool error. known_findings.json lists recorded and fixed defects.",
+        "notes": "Exit codes: 0 held / KNOWN-FINDING only, 1 VIOLATION, 2 tool error. known_findings.json lists recorded and fixed defects. "
+                 "Specification growth beyond the listed properties is hosted by some checks (design-level TLC runs plus conformance of the real "
+                 "code, reported as MODEL-DRIFT lines and growth_* evidence keys, never as VIOLATION): C01 wire protocol; C03 composition root "
+                 "SaorsaCore.tla; C04 production resource manager; C09 identity regeneration trigger; C13 bootstrap contact bookkeeping; "
+                 "C15 bucket refresh / attack mode; C17 node age verification; C18 upgrade staging and rollback; C20 transport peer "
+                 "bookkeeping and maintenance scheduler. See DESIGN.md sections 12.7 and 13.3.",
     }
     with open(os.path.join(VERIF, "MANIFEST.json"), "w") as f:
         json.dump(m, f, indent=1)
